@@ -214,7 +214,9 @@ class C18(Check):
             'simulation with native activities awaiting the events; compared with an independent reference simulator of '
             'documented SimPy semantics. Race-free by construction (per-process time phases); cases whose outcome would '
             'depend on same-step order are discarded. non-trivial = >=2 processes interacting through an event, interrupt '
-            'or sub-process; distinct by sha1.')
+            'or sub-process; distinct by sha1. Also: conditions built by operators / classes / a custom evaluation function and '
+            'read through the mapping interface of their value, interrupts issued by event callbacks, negative initial times, native '
+            'activities that handle a failure and go on next to others that die of it, exact until dates.')
     budgets = {'quick': dict(examples=1600, procs=4), 'thorough': dict(examples=200000, procs=16)}
     level_text = ('Model-based differential: per-process logs (step, env.now, value | exception | interrupt cause), callback '
                   'invocations, second-trigger errors, the result of env.run and env.now afterwards must equal the reference '
